@@ -11,11 +11,13 @@
 (*                                                                         *)
 (* Variants: Threshold (trailing run iff pending > Threshold; code: 1),    *)
 (* DrainNewStore (take a pending new-store message before running hooks;   *)
-(* FALSE = the code before the fix).                                       *)
+(* FALSE = the code before the fix), NewStoreSend (the dispatcher's send   *)
+(* of the new directory after a reload: "block" until the loop has taken   *)
+(* the previous message (code) | "drop" it when the channel is full).      *)
 (***************************************************************************)
 EXTENDS Naturals, Sequences, FiniteSets, TLC
 
-CONSTANTS T, MaxTime, MaxChanges, MaxReloads, Stores, Threshold, DrainNewStore, NCap
+CONSTANTS T, MaxTime, MaxChanges, MaxReloads, Stores, Threshold, DrainNewStore, NCap, NewStoreSend
 
 VARIABLES now,
           pending, timerAt,        \* loop state (timerAt = 0: not armed)
@@ -26,34 +28,43 @@ VARIABLES now,
           changes,                 \* ghost: [id |-> [t, store]] of all changes so far (a sequence)
           uncovered,               \* ghost: ids of changes not yet followed by a hook round
           runs,                    \* ghost: the rounds so far: sequence of [t, store]
-          nreload
+          nreload,
+          sh,                      \* ghost: the store directories the agent has used so far, in order
+          psend                    \* the dispatcher after a reload: the directory it still has to send ("" = none; it does nothing else meanwhile)
 
-vars == <<now, pending, timerAt, nq, nsq, hookStore, agentStore, changes, uncovered, runs, nreload>>
+vars == <<now, pending, timerAt, nq, nsq, hookStore, agentStore, changes, uncovered, runs, nreload, psend, sh>>
 
 FirstStore == CHOOSE x \in Stores : TRUE
 Init == /\ now = 0 /\ pending = 0 /\ timerAt = 0 /\ nq = <<>> /\ nsq = <<>>
         /\ hookStore = FirstStore /\ agentStore = FirstStore
-        /\ changes = <<>> /\ uncovered = {} /\ runs = <<>> /\ nreload = 0
+        /\ changes = <<>> /\ uncovered = {} /\ runs = <<>> /\ nreload = 0 /\ psend = "" /\ sh = <<FirstStore>>
 
 TimerDue == timerAt # 0 /\ now >= timerAt
 LoopReady == nq # <<>> \/ nsq # <<>> \/ TimerDue
 
 \* ---- environment: the dispatcher
 Change ==       \* a successful mutation of the agent's current store, followed by Notify <- true
-    /\ Len(changes) < MaxChanges /\ Len(nq) < NCap
+    /\ Len(changes) < MaxChanges /\ Len(nq) < NCap /\ psend = ""
     /\ now + T < MaxTime               \* (bounded horizon: leave room for the trailing edge, else liveness is cut off)
-    /\ changes' = Append(changes, [t |-> now, store |-> agentStore])
+    /\ changes' = Append(changes, [t |-> now, store |-> agentStore, e |-> Len(sh)])
     /\ uncovered' = uncovered \cup {Len(changes) + 1}
     /\ nq' = Append(nq, Len(changes) + 1)
-    /\ UNCHANGED <<now, pending, timerAt, nsq, hookStore, agentStore, runs, nreload>>
+    /\ UNCHANGED <<now, pending, timerAt, nsq, hookStore, agentStore, runs, nreload, psend, sh>>
 
-Reload(s) ==    \* SIGHUP: the agent switches to another store and tells the hooks caller
-    /\ s \in Stores /\ s # agentStore /\ nsq = <<>> /\ nreload < MaxReloads
-    /\ agentStore' = s /\ nsq' = <<s>> /\ nreload' = nreload + 1
-    /\ UNCHANGED <<now, pending, timerAt, nq, hookStore, changes, uncovered, runs>>
+Reload(s) ==    \* SIGHUP: the agent switches to another store ...
+    /\ s \in Stores /\ s # agentStore /\ psend = "" /\ nreload < MaxReloads
+    /\ agentStore' = s /\ psend' = s /\ nreload' = nreload + 1 /\ sh' = Append(sh, s)
+    /\ UNCHANGED <<now, pending, timerAt, nq, nsq, hookStore, changes, uncovered, runs>>
 
-Tick == /\ ~LoopReady /\ now < MaxTime /\ now' = now + 1
-        /\ UNCHANGED <<pending, timerAt, nq, nsq, hookStore, agentStore, changes, uncovered, runs, nreload>>
+SendReady == psend # "" /\ (nsq = <<>> \/ NewStoreSend = "drop")
+ReloadSend ==   \* ... and tells the hooks caller (channel of capacity 1)
+    /\ SendReady
+    /\ nsq' = IF nsq = <<>> THEN <<psend>> ELSE nsq          \* "drop": the message is lost when the channel is full
+    /\ psend' = ""
+    /\ UNCHANGED <<now, pending, timerAt, nq, hookStore, agentStore, changes, uncovered, runs, nreload, sh>>
+
+Tick == /\ ~LoopReady /\ ~SendReady /\ now < MaxTime /\ now' = now + 1
+        /\ UNCHANGED <<pending, timerAt, nq, nsq, hookStore, agentStore, changes, uncovered, runs, nreload, psend, sh>>
 
 \* ---- the loop
 \* runAllHooks: every change made so far is covered by this round (the hooks read the store now)
@@ -71,7 +82,7 @@ LoopNotify ==
        THEN Round(StoreForRound) /\ DrainEffect /\ timerAt' = now + T
        ELSE UNCHANGED <<runs, uncovered, hookStore, nsq, timerAt>>
     /\ pending' = pending + 1
-    /\ UNCHANGED <<now, agentStore, changes, nreload>>
+    /\ UNCHANGED <<now, agentStore, changes, nreload, psend, sh>>
 
 LoopTimer ==
     /\ TimerDue
@@ -79,16 +90,16 @@ LoopTimer ==
        THEN Round(StoreForRound) /\ DrainEffect
        ELSE UNCHANGED <<runs, uncovered, hookStore, nsq>>
     /\ pending' = 0 /\ timerAt' = 0
-    /\ UNCHANGED <<now, nq, agentStore, changes, nreload>>
+    /\ UNCHANGED <<now, nq, agentStore, changes, nreload, psend, sh>>
 
 LoopNewStore ==
     /\ nsq # <<>>
     /\ hookStore' = Head(nsq) /\ nsq' = <<>>
-    /\ UNCHANGED <<now, pending, timerAt, nq, agentStore, changes, uncovered, runs, nreload>>
+    /\ UNCHANGED <<now, pending, timerAt, nq, agentStore, changes, uncovered, runs, nreload, psend, sh>>
 
 Loop == LoopNotify \/ LoopTimer \/ LoopNewStore
-Next == Change \/ (\E s \in Stores : Reload(s)) \/ Tick \/ Loop
-Spec == Init /\ [][Next]_vars /\ WF_vars(Loop) /\ WF_vars(Tick)
+Next == Change \/ (\E s \in Stores : Reload(s)) \/ ReloadSend \/ Tick \/ Loop
+Spec == Init /\ [][Next]_vars /\ WF_vars(Loop) /\ WF_vars(Tick) /\ WF_vars(ReloadSend)
 
 -----------------------------------------------------------------------------
 (* C19 *)
@@ -101,11 +112,11 @@ EveryChangeCovered == (uncovered # {}) ~> (uncovered = {})
 AtMostTwoRoundsPerInterval ==
     \A i \in 1..Len(runs) : (i + 2 <= Len(runs)) => (runs[i + 2].t - runs[i].t >= T)
 
-\* a round that covers a change carries a store directory that was current at some moment not before that change:
-\* rounds after a reload (seen from the dispatcher's program order) never carry the directory replaced before the change
+\* a round that covers a change carries a store directory that was the agent's directory at some moment not before
+\* that change (sh = the directories used so far, changes[i].e = how many of them had been used when change i was made)
 RoundCarriesCurrentStore ==
     [][\A k \in 1..Len(runs') : k > Len(runs) =>
-          \A i \in uncovered : runs'[k].store = changes[i].store \/ runs'[k].store = agentStore
+          \A i \in uncovered : \E j \in changes[i].e..Len(sh) : sh[j] = runs'[k].store
        ]_vars
 
 NoRoundWithoutNotification == Len(runs) <= Len(changes)
